@@ -174,7 +174,7 @@ def main():
             }
         ],
         "checks": checks,
-        "notes": "Known findings: known_findings.json. Replays: replays/. Every check regenerates lean/CvGen from /repo and rebuilds incrementally.",
+        "notes": "Known findings: known_findings.json. Replays: replays/. Every check regenerates lean/CvGen from /repo and rebuilds incrementally. Each check audits the abstract property theorems AND the end-to-end theorems (CvProps/C*e.lean, C*m.lean, C14i, C11b, C11x) that instantiate them with the encoded / plain permutation graphs and matrix graphs the library builds. Seeded changes and which check catches which: seeded/, DESIGN.md 11.5. Source pins (harness/extract/pins.json) only direct search effort.",
         "not_applicable": na,
     }
     with open(os.path.join(HERE, "MANIFEST.json"), "w") as f:
